@@ -381,12 +381,18 @@ class CompactRouting(Harness):
     @classmethod
     def inputs(cls, ctx, cfg):
         v = two_addresses(zmax=cfg.get('zmax', 30))
-        return dict(a=v[:3], b=v[3:])
+        # outcome of the bundle operation on the first tile (a missing / failing first tile must not stop the second)
+        return dict(a=v[:3], b=v[3:], first_ok=bool_var('first_tile_found'))
 
     @classmethod
-    def prop(cls, ctx, cfg, a, b):
+    def native_inputs(cls, cex):
+        return dict(a=[int(x) for x in cex['a']], b=[int(x) for x in cex['b']], first_ok=bool(cex.get('first_ok', True)))
+
+    @classmethod
+    def prop(cls, ctx, cfg, a, b, first_ok=True):
         c, cache = ctx['c'], ctx['cache']
         log = []
+        first_ok = bool(first_ok) if isinstance(first_ok, SymBool) else first_ok
 
         class Tile(object):
             def __init__(self, coord):
@@ -400,9 +406,12 @@ class CompactRouting(Harness):
                 self.fname, self.offset = fname, offset
 
             def _rec(self, op, tiles):
+                res = True
                 for t in tiles:
                     log.append((op, t, self.fname, self.offset))
-                return True
+                    if t is ta and not first_ok:
+                        res = False
+                return res
 
             def store_tile(self, tile, dimensions=None):
                 return self._rec('store', [tile])
